@@ -361,6 +361,9 @@ class Exec:
             if inner.startswith('fn(') or '{' in inner: return FnItem(inner)
             return FnItem(inner)
         if text == '{zero-sized}': return UNIT
+        sc = getattr(self.prog, 'simple_consts', {})
+        for n_, v_ in sc.items():
+            if n_ == text or text.endswith('::' + n_) or n_.endswith('::' + text): return v_
         return FnItem(text)
 
     # ---- rvalues
